@@ -122,6 +122,18 @@ def run(prop: str, tier: str, seed: int, replay: str | None, scratch: str) -> in
         except Exception as e:  # noqa: BLE001
             ctx.gen_status["Transcription_error"] = f"{type(e).__name__}: {e}"
 
+    # 1a'. state carried between calls (read-before-write of object attributes from the entry points, shared class
+    #      attributes, mutable defaults, module-level state): the models take every entry point as a function of its
+    #      inputs (harness/translate/carried.py)
+    if os.environ.get("VERIF_NO_TRANSCRIPT_TIE") != "1":
+        try:
+            from translate import carried
+            cs = carried.check(prop)
+            if cs:
+                ctx.gen_status["CarriedState"] = cs
+        except Exception as e:  # noqa: BLE001
+            ctx.gen_status["CarriedState_error"] = f"{type(e).__name__}: {e}"
+
     # 1b. has the code the hand-written parts of the model were validated against changed?  Not a verdict —
     #     it only moves this run to the thorough case counts (see harness/fingerprint.py)
     try:
